@@ -108,45 +108,50 @@ def run_shard(spec, rec, lib):
             # and the same entries under the other signature mode
             twin2 = dict(case, gpg=not case["gpg"], stratum="twin-mode:" + case["stratum"])
             judge(twin2, rec, lib)
-        # second run with the primitive probe on: inner invariants
+        # second run with the probes on: inner invariants
         if i % 3 == 0:
-            lp = probes.LocalsProbe(getattr(lib.authentication.verify_signable, "__wrapped__", lib.authentication.verify_signable),
-                                    "good_sigs_from_trusted_keys")
-            with pr, lp:
-                signable, authorized, threshold, gpg = envelope.materialise(case, lib)
-                out2 = boundary.call(lib, lib.authentication.verify_signable, signable, authorized,
-                                     threshold, gpg=gpg)
-            got = None
-            if lp.hits and lp.captures and lp.captures[-1] is not None:
-                try:
-                    got = set(lp.captures[-1])
-                    if not all(isinstance(k, str) for k in got):
-                        got = None
-                except TypeError:
-                    got = None
-                if got is None:
-                    rec.count("probe_counted_signers_unrecognised_shape")
-            if got is not None and model.v != models.GREY:
-                rec.count("probe_counted_signer_sets")
-                allowed = set(model.counted) | set(model.grey_counted)
-                if not got <= allowed:
-                    rec.violation(
-                        "counted-signers-probe/verify_signable/counts-a-signer-the-model-does-not",
-                        "the set of counted signers contains %d key(s) that have no valid authorized signature filed under them"
-                        % len(got - allowed), case)
-            elif not lp.hits:
-                rec.count("probe_counted_signers_unreached")
-            if out2.kind != out.kind or out2.cls != out.cls:
-                rec.count("probe_perturbed")
-                pr.events.clear()
-                continue
-            check_primitive_events(case, signable, pr.events, rec, model, out2)
-            pr.events.clear()
+            probe_pass(case, rec, lib, pr, model, out)
         if i < 2:
             rec.sample({"case": envelope.brief(case), "model": model.as_json(), "observed": out.as_json()})
     rec.count("probe_verify_events", pr.total)
     if pr.total == 0:
         rec.count("probe_unreached")
+
+
+def probe_pass(case, rec, lib, pr, model, out):
+    """run the case again with the primitive probe and the counted-signers probe attached"""
+    lp = probes.LocalsProbe(getattr(lib.authentication.verify_signable, "__wrapped__", lib.authentication.verify_signable),
+                            "good_sigs_from_trusted_keys")
+    with pr, lp:
+        signable, authorized, threshold, gpg = envelope.materialise(case, lib)
+        out2 = boundary.call(lib, lib.authentication.verify_signable, signable, authorized,
+                             threshold, gpg=gpg)
+    got = None
+    if lp.hits and lp.captures and lp.captures[-1] is not None:
+        try:
+            got = set(lp.captures[-1])
+            if not all(isinstance(k, str) for k in got):
+                got = None
+        except TypeError:
+            got = None
+        if got is None:
+            rec.count("probe_counted_signers_unrecognised_shape")
+    if got is not None and model.v != models.GREY:
+        rec.count("probe_counted_signer_sets")
+        allowed = set(model.counted) | set(model.grey_counted)
+        if not got <= allowed:
+            rec.violation(
+                "counted-signers-probe/verify_signable/counts-a-signer-the-model-does-not",
+                "the set of counted signers contains %d key(s) that have no valid authorized signature filed under them"
+                % len(got - allowed), case)
+    elif not lp.hits:
+        rec.count("probe_counted_signers_unreached")
+    if out2.kind != out.kind or out2.cls != out.cls:
+        rec.count("probe_perturbed")
+        pr.events.clear()
+        return
+    check_primitive_events(case, signable, pr.events, rec, model, out2)
+    pr.events.clear()
 
 
 def check_primitive_events(case, signable, events, rec, model, out):
@@ -195,4 +200,5 @@ def replay(case, rec, lib):
         print("history-dependent witness (ops: %s); re-running in-place histories" % "->".join(case["ops"]))
         run_inplace({"seed": 1, "count": 200}, rec, lib)
         return
-    judge(case, rec, lib)
+    model, out = judge(case, rec, lib)
+    probe_pass(case, rec, lib, probes.PrimitiveProbe(lib), model, out)
